@@ -222,7 +222,7 @@ pub fn codec_step(w: &mut World, case: &CodecCase) {
                 Out::Panic(p) => w.violate("C04", "panic", bk, "decode-claims", "", p),
             }
         }
-        CodecCase::RegForeign { json } => {
+        CodecCase::RegForeign { json, must_accept } => {
             w.stats.bump("op:codec:reg-foreign");
             w.log.update_str(json);
             let r = backend::decode_reg(json.as_bytes());
@@ -271,6 +271,7 @@ pub fn codec_step(w: &mut World, case: &CodecCase) {
                         }
                     }
                 }
+                Out::Err(e) if *must_accept => w.violate("C14", "unknown-member-not-ignored", bk, "decode-claims", "", format!("object with well-formed registered members and unknown members rejected ({e:?}): {}", truncate(json, 200))),
                 Out::Err(_) => w.stats.bump("codec:foreign-rejected"),
                 Out::Panic(p) => w.violate("C04", "panic", bk, "decode-claims", "", p),
             }
